@@ -421,6 +421,26 @@ pub fn tsc_duration_since(later: u64, earlier: u64, frequency: u64) -> u128 {
         .picos
 }
 
+/// The same difference through the tagged `Timestamp` (the route every consumer
+/// in the crate takes: samples, the elapsed-time budget, the measuring loops).
+pub fn timestamp_duration_since(later: u64, earlier: u64, frequency: u64) -> u128 {
+    use crate::time::{Timestamp, UntaggedTimestamp};
+    let timer = Timer::Tsc { frequency: NonZeroU64::new(frequency).expect("frequency") };
+    // SAFETY: both values are created as the variant that `timer.kind()` names.
+    let [later, earlier]: [Timestamp; 2] = [later, earlier]
+        .map(|value| unsafe { UntaggedTimestamp { tsc: TscTimestamp { value } }.into_timestamp(timer.kind()) });
+    later.duration_since(earlier, timer).picos
+}
+
+/// The OS arm of the tagged route: two instants `later_ns` / `earlier_ns`
+/// nanoseconds after a common base.
+pub fn os_timestamp_duration_since(later_ns: u64, earlier_ns: u64) -> u128 {
+    use crate::time::Timestamp;
+    let base = std::time::Instant::now();
+    let at = |ns: u64| Timestamp::Os(base + Duration::from_nanos(ns));
+    at(later_ns).duration_since(at(earlier_ns), Timer::Os).picos
+}
+
 pub fn duration_to_picos(duration: Duration) -> u128 {
     FineDuration::from(duration).picos
 }
